@@ -60,6 +60,13 @@ type Case struct {
 	// AfterBigBody: first another connection is served whose 100000-byte upload the handler collects with Request.Body()
 	// (the pooled request's body buffer has grown); MaxBody -1 = no body limit configured
 	AfterBigBody bool `json:"after_big_body,omitempty"`
+	// LFEnd (chunked): line ends of the trailer section are bare LF - 1: the closing empty line ("0 CRLF LF"), 2: the trailer
+	// field and the closing line ("X-Tr: tv LF LF"), 3: only the closing line after a CRLF-terminated field. Every reader
+	// of hertz accepts these; whether the handler reads the body or not, what follows is the next request.
+	LFEnd int `json:"lf_end,omitempty"`
+	// BadChunk (chunked): the chunk framing breaks after the first chunk - 1: size line "1g0", 2: missing CRLF after the
+	// chunk data ("abc0"). The handler that reads gets an error; the connection must not go on serving what follows.
+	BadChunk int `json:"bad_chunk,omitempty"`
 }
 
 // expander doubles every byte of r.
@@ -130,9 +137,29 @@ func build(cs Case) (stream []byte, body []byte, firstLen int) {
 			w.WriteString("\r\n")
 			off += n
 		}
+		if cs.BadChunk == 1 {
+			w.WriteString("1g")
+		}
+		if cs.BadChunk == 2 {
+			// drop the CRLF that ended the last chunk's data
+			b := w.Bytes()
+			w.Truncate(len(b) - 2)
+		}
 		w.WriteString("0\r\n")
 		if cs.Trailer {
-			w.WriteString("X-Tr: tv\r\n")
+			if cs.LFEnd == 2 {
+				w.WriteString("X-Tr: tv\n")
+			} else {
+				w.WriteString("X-Tr: tv\r\n")
+			}
+		}
+		if cs.LFEnd != 0 {
+			w.WriteString("\n")
+			firstLen = w.Len()
+			if !cs.NoProbe {
+				w.WriteString("GET /probe HTTP/1.1\r\nHost: h\r\nX-Id: probe\r\n\r\n")
+			}
+			return w.Bytes(), body, firstLen
 		}
 		switch cs.BadTrailer {
 		case 1:
@@ -306,6 +333,12 @@ func (w *worker) exec(c *mc.Ctx, cs Case) {
 		if cs.BadTrailer != 0 {
 			enc = fmt.Sprintf("chunked-badtrailer%d", cs.BadTrailer)
 		}
+		if cs.LFEnd != 0 {
+			enc = fmt.Sprintf("chunked-lf-end%d", cs.LFEnd)
+		}
+		if cs.BadChunk != 0 {
+			enc = fmt.Sprintf("chunked-badchunk%d", cs.BadChunk)
+		}
 		if cs.AfterFailedRelease {
 			enc += "|after-failed-release"
 		}
@@ -354,7 +387,7 @@ func (w *worker) exec(c *mc.Ctx, cs Case) {
 		fail("not-a-prefix", fmt.Sprintf("handler read %d bytes that are not a prefix of the %d-byte body (first difference at %d)", len(lg.got), len(body), firstDiff(lg.got, body)))
 		return
 	}
-	badTrailerAtEnd := cs.BadTrailer != 0 && len(lg.got) == len(body)
+	badTrailerAtEnd := (cs.BadTrailer != 0 || cs.BadChunk != 0) && len(lg.got) == len(body)
 	if len(lg.errs) > 0 && !badTrailerAtEnd {
 		fail("read-error", fmt.Sprintf("body read failed after %d of %d bytes: %v", len(lg.got), len(body), lg.errs))
 		return
@@ -406,7 +439,7 @@ func (w *worker) exec(c *mc.Ctx, cs Case) {
 		return
 	}
 	fin := httpref.Finals(ms)
-	if cs.BadTrailer != 0 && len(fin) > 0 && fin[0].Status/100 == 4 {
+	if (cs.BadTrailer != 0 || cs.LFEnd != 0 || cs.BadChunk != 0) && len(fin) > 0 && fin[0].Status/100 == 4 {
 		// rejected as malformed: fine, as long as nothing else was served (checked above) and the connection is closed
 		if !res.Closed || len(res.Seen) > 1 {
 			fail("reject-discipline", fmt.Sprintf("malformed trailer rejected with %d but closed=%v handlers=%d", fin[0].Status, res.Closed, len(res.Seen)))
@@ -418,6 +451,11 @@ func (w *worker) exec(c *mc.Ctx, cs Case) {
 		return
 	}
 	probeServed := len(res.Seen) == 2
+	if probeServed && cs.BadChunk != 0 {
+		// the chunk framing of the upload is broken: there is no "first byte after the body" to resume at
+		fail("resync-after-framing-error", fmt.Sprintf("the chunk framing of the upload is malformed (handler errors: %v), yet the server went on and served what followed", lg.errs))
+		return
+	}
 	if probeServed {
 		if len(fin) != 2 || string(fin[1].Body) != "id=probe;uri=/probe;n=0;" {
 			fail("probe-response", fmt.Sprintf("probe handler ran but its response is wrong: %q", clip(res.Out)))
@@ -587,6 +625,25 @@ func cases(thorough bool) []Case {
 					for stop := -1; stop <= n; stop++ {
 						for _, seg := range []string{"whole", "later", "bytewise"} {
 							out = append(out, Case{Len: n, Chunked: true, Chunks: ch, BadTrailer: bt, ReadSize: rs, Stop: stop, Seg: seg})
+						}
+					}
+				}
+			}
+		}
+	}
+	// trailer sections whose lines end in a bare LF (accepted by every reader), and chunk framing that breaks after the data
+	for n := 0; n <= 3; n++ {
+		for _, ch := range compositions(n) {
+			for _, rs := range []int{1, 4096} {
+				for stop := -1; stop <= n; stop++ {
+					for _, seg := range []string{"whole", "later", "bytewise"} {
+						for lf := 1; lf <= 3; lf++ {
+							out = append(out, Case{Len: n, Chunked: true, Chunks: ch, Trailer: lf != 1, LFEnd: lf, ReadSize: rs, Stop: stop, Seg: seg})
+						}
+						if n > 0 {
+							for bc := 1; bc <= 2; bc++ {
+								out = append(out, Case{Len: n, Chunked: true, Chunks: ch, BadChunk: bc, ReadSize: rs, Stop: stop, Seg: seg})
+							}
 						}
 					}
 				}
